@@ -539,6 +539,8 @@ var builderInline = []string{"*", "-(*SAMLServiceProvider).SignAuthnRequest", "-
 // ---------------------------------------------------------------- C13
 
 func ruleC13(c *Ctx) {
+	c.rule("C13-R7", "a built (and signed) document is not touched again: no tree-changing operation outside the frozen table in the cone of the builders (shared treeHygiene) — indenting a shallow copy of the document rewrites the signed element")
+	treeHygiene(c, "C13-R7", outboundRoots(c))
 	c.rule("C13-R1", "placement: each Sign* rebuilds the children of a copy as [Child[0], signature, Child[1:]...] (or InsertChildAt(1, sig)) with ConstructSignature(el, enveloped=true) from sp.SigningContext(); the three Sign* bodies agree; the builders create saml:Issuer first (C15-R4)")
 	c.rule("C13-R2", "context configuration: on every creating path of SigningContext the algorithm is applied with SetSignatureMethod(sp.SignAuthnRequestsAlgorithm) and, when configured, the canonicalizer is stored, on the new context and before the write lock is released; the embedded certificate comes from the same key source as the signer")
 	c.rule("C13-R3", "single door: receivers of ConstructSignature / SignString / SignEnveloped are sp.SigningContext() results; signing contexts are constructed only inside SigningContext (positive control)")
@@ -772,6 +774,17 @@ func ruleC18(c *Ctx) {
 				}
 			}
 			c.check(good, "C18-R1", fname, "ID = letter/underscore prefix + fresh UUID", c.P.InstrPos(ids[0].Ev.Instr), detail, "ID is "+detail+": not a constant NCName-start prefix followed by the String() of a UUID generated in this call")
+			// ... and it reaches the attribute as a value of this activation, not by being read back from storage that other
+			// calls (or goroutines) write: a per-provider "last issued" record filled under a lock and read after the lock is
+			// released holds whatever the latest builder put there
+			if ci, ok := ids[0].Ev.Instr.(ssa.CallInstruction); ok {
+				args := ci.Common().Args
+				if back := readBackFrom(args[len(args)-1], 0, map[ssa.Value]bool{}); back != "" {
+					c.bad("C18-R1", fname, "ID handed over as a value of this call", c.P.InstrPos(ids[0].Ev.Instr), "the ID attribute is loaded from "+back+": storage that outlives the call and is shared with other builders, so concurrent builds emit each other's IDs")
+				} else {
+					c.ok("C18-R1", fname, "ID handed over as a value of this call", c.P.InstrPos(ids[0].Ev.Instr), "no load from shared storage on the way to the attribute")
+				}
+			}
 		}
 	}
 	c.count("C18-R1/id-attributes", n)
@@ -1393,6 +1406,8 @@ func expandRelayBlock(src string, taken bool) (string, bool) {
 }
 
 func ruleC16(c *Ctx) {
+	c.rule("C16-R6", "the POST builders serialise the document they are given as it is: no tree-changing operation outside the frozen table in the cone of the builders (shared treeHygiene) — Indent followed by Unindent drops whitespace nodes of the caller's document")
+	treeHygiene(c, "C16-R6", outboundRoots(c))
 	c.rule("C16-R1", "the bytes returned by the three POST body builders come only from a bytes.Buffer written by (*html/template.Template).Execute (package identity checked)")
 	c.rule("C16-R2", "the template source is a compile-time constant; parsed at analysis time: only plain field actions whose fields exist in the data struct with type string; every action sits inside a double-quoted attribute value; one form, method POST, action={{.URL}}; hidden SAMLRequest/SAMLResponse input; RelayState input present exactly on the relayState != \"\" path")
 	c.rule("C16-R5", "the endpoint URLs the forms post to are written by no library function (filtered view of the C17-R1 effect scan): a 'default the SLO URL to the SSO URL' helper elsewhere redirects every later logout form")
@@ -2025,4 +2040,58 @@ func plainAttrName(n string) bool {
 		}
 	}
 	return true
+}
+
+
+// readBackFrom: v is computed through a load whose address is not rooted in a local variable of the same function (a
+// field of a record a callee returned, of the receiver, of a map element, of a global). Returns a description, or "".
+func readBackFrom(v ssa.Value, depth int, seen map[ssa.Value]bool) string {
+	if v == nil || depth > 8 || seen[v] {
+		return ""
+	}
+	seen[v] = true
+	switch x := v.(type) {
+	case *ssa.UnOp:
+		if x.Op == token.MUL {
+			var base ssa.Value = x.X
+			for {
+				switch a := base.(type) {
+				case *ssa.FieldAddr:
+					base = a.X
+					continue
+				case *ssa.IndexAddr:
+					base = a.X
+					continue
+				}
+				break
+			}
+			switch b := base.(type) {
+			case *ssa.Alloc:
+				return ""
+			case *ssa.FreeVar:
+				return ""
+			default:
+				return "memory reached through " + b.Name() + " (" + typeStr(b.Type()) + ")"
+			}
+		}
+		return readBackFrom(x.X, depth+1, seen)
+	case *ssa.BinOp:
+		if r := readBackFrom(x.X, depth+1, seen); r != "" {
+			return r
+		}
+		return readBackFrom(x.Y, depth+1, seen)
+	case *ssa.Phi:
+		for _, e := range x.Edges {
+			if r := readBackFrom(e, depth+1, seen); r != "" {
+				return r
+			}
+		}
+	case *ssa.Convert:
+		return readBackFrom(x.X, depth+1, seen)
+	case *ssa.ChangeType:
+		return readBackFrom(x.X, depth+1, seen)
+	case *ssa.Extract:
+		return readBackFrom(x.Tuple, depth+1, seen)
+	}
+	return ""
 }
